@@ -147,7 +147,7 @@ func c05Gen(r *rand.Rand, n int, tier string) []string {
 			ops = append(ops, "ep:"+hxs("b")+":"+hxs("a")+":"+tomb(1))
 		}
 		for s := 0; s < 2+r.Intn(5); s++ {
-			switch r.Intn(9) {
+			switch r.Intn(10) {
 			case 0: // self edge
 				x := pick(r, chain)
 				ops = append(ops, "ep:"+hxs(x)+":"+hxs(x)+":"+nt())
@@ -173,6 +173,10 @@ func c05Gen(r *rand.Rand, n int, tier string) []string {
 				ops = append(ops, "ep:"+hxs(pick(r, []string{"e", "f"}))+":"+hxs(pick(r, chain))+":"+tomb(0)+pick(r, []string{"", "+" + val("4607182418800017408")}))
 			case 6: // legal mirror (not a cycle)
 				ops = append(ops, "ep:"+hxs("c")+":"+hxs(pick(r, []string{"d", "a", "R"}))+":"+nt())
+			case 7: // a cycle that only closes through the NEWER of two parents: x is mirrored under d (legal), then d goes under x
+				x := pick(r, []string{"c", "b"})
+				ops = append(ops, "ep:"+hxs(x)+":"+hxs("d")+":"+nt()+"+"+tomb(0))
+				ops = append(ops, "ep:"+hxs("d")+":"+hxs(x)+":"+pick(r, []string{nt(), tomb(0) + "+" + nt()}))
 			default: // good writes after refused ones
 				if r.Intn(2) == 0 {
 					ops = append(ops, "np:"+hxs(pick(r, chain))+":"+val("4607182418800017408"))
